@@ -85,6 +85,7 @@ class AngleMonitors:
         self.ctx = ctx
         self.active = active
         self.installed = []
+        self.own = {}
         self.calls = {}
         self.depth = 0
 
@@ -178,7 +179,8 @@ class AngleMonitors:
         self.installed.append((fname, fn, wrapper, n))
 
     def _wrap_method(self, cls, mname):
-        fn = cls.__dict__[mname]
+        from . import core
+        fn, own = core.repo_method(cls, mname)
         mon = self
         label = '%s.%s' % (cls.__name__, mname)
 
@@ -195,11 +197,16 @@ class AngleMonitors:
         wrapper.__name__ = mname
         wrapper.__wrapped__ = fn
         setattr(cls, mname, wrapper)
+        self.own[label] = own
         self.installed.append((label, fn, wrapper, 1))
 
     def _wrap_hp_init(self):
+        from . import core
         cls = self.A.HPAngle
-        fn = cls.__dict__['__init__']
+        fn, own = core.repo_method(cls, '__init__')
+        if fn is None:
+            return
+        self.own['HPAngle.__init__'] = own
         mon = self
 
         def wrapper(self_, hp_angle=0.0):
@@ -257,7 +264,8 @@ class AngleMonitors:
         for cname in ax.ANGLE_CLASSES:
             cls = getattr(A, cname)
             for m in ALL_DST:
-                if m in cls.__dict__:
+                from . import core
+                if core.repo_method(cls, m)[0] is not None:
                     self._wrap_method(cls, m)
         self._wrap_hp_init()
         self._wrap_typecheck()
@@ -268,7 +276,7 @@ class AngleMonitors:
         for label, fn, wrapper, n in self.installed:
             if '.' in label:
                 cname, m = label.split('.')
-                setattr(getattr(self.A, cname), m, fn)
+                core.restore_method(getattr(self.A, cname), m, fn, self.own.get(label, True))
             else:
                 for mod in core.repo_namespaces():
                     for kk, vv in list(vars(mod).items()):
